@@ -446,8 +446,15 @@ func borderImageSlice(_ *ComputedStyle, _ pr.KnownProp, _value pr.CssProperty) p
 }
 
 // Compute the “border-image-width“ property.
-func borderImageWidth(_ *ComputedStyle, _ pr.KnownProp, _value pr.CssProperty) pr.CssProperty {
-	values := _value.(pr.Values)
+func borderImageWidth(computer *ComputedStyle, _ pr.KnownProp, _value pr.CssProperty) pr.CssProperty {
+	values := make(pr.Values, len(_value.(pr.Values)))
+	for i, value := range _value.(pr.Values) {
+		if value.Unit == pr.Scalar {
+			values[i] = value
+		} else { // length, percentage or "auto"
+			values[i] = length_(computer, value, -1, false)
+		}
+	}
 	switch len(values) {
 	case 1:
 		return values.Repeat(4)
